@@ -101,10 +101,12 @@ theorem handleSrtPacket_trk (s : Sys F) (pkt : Sys.Bytes) (now : Nat) :
           s.links[sel] (List.getElem?_eq_getElem hlt)
         exact ⟨s.links[sel], List.getElem?_eq_getElem hlt, r2.trans f2, r1.trans f1⟩
 
-/-- No other arm of the event loop writes the ring. -/
-theorem step_trk_other (s : Sys F) (e : Ev) (h : ∀ now pkt, e ≠ .client now pkt) :
+/-- No other arm of the event loop writes the ring (a reload RESETS the entries of the removed conn ids:
+`reload_trk_ent`). -/
+theorem step_trk_other (s : Sys F) (e : Ev) (h : ∀ now pkt, e ≠ .client now pkt) (hnr : e.isReload = false) :
     (step s e).1.trk = s.trk := by
   cases e with
+  | reload rnow raddrs routs => cases hnr
   | client now pkt => exact absurd rfl (h now pkt)
   | uplink now cid data =>
     simp only [step]
@@ -134,15 +136,80 @@ theorem step_trk_other (s : Sys F) (e : Ev) (h : ∀ now pkt, e ≠ .client now 
 def TrkSubSys (s : Sys F) : Prop :=
   ∀ i, (s.trk.ent i).connId = 0 ∨ ∃ l ∈ s.links, l.core.connId = (s.trk.ent i).connId
 
-theorem ids_stable (s : Sys F) (e : Ev) (cid : Nat) (h : ∃ l ∈ s.links, l.core.connId = cid) :
+/-- `remove_connection` for a list of ids, slot by slot: an entry naming one of the ids is reset to the
+all-zero default, every other entry is untouched. -/
+theorem foldl_removeConnection_ent (ids : List Nat) (t : Tracker) (i : Nat) :
+    (ids.foldl Tracker.removeConnection t).ent i = if (t.ent i).connId ∈ ids then {} else t.ent i := by
+  induction ids generalizing t with
+  | nil => simp
+  | cons c rest ih =>
+    rw [List.foldl_cons, ih]
+    show (if ((if (t.ent i).connId = c then ({} : TrkEntry) else t.ent i)).connId ∈ rest then ({} : TrkEntry)
+        else (if (t.ent i).connId = c then ({} : TrkEntry) else t.ent i)) = _
+    by_cases hc : (t.ent i).connId = c
+    · rw [if_pos hc, if_pos (show (t.ent i).connId ∈ c :: rest by rw [hc]; exact List.mem_cons_self)]
+      split <;> rfl
+    · rw [if_neg hc]
+      by_cases hr : (t.ent i).connId ∈ rest
+      · rw [if_pos hr, if_pos (List.mem_cons_of_mem _ hr)]
+      · rw [if_neg hr, if_neg (by intro h; rcases List.mem_cons.1 h with h | h; exact hc h; exact hr h)]
+
+/-- **The ring after a reload, slot by slot**: if at least one link was removed, an entry naming a removed
+conn id is reset to the all-zero default; every other entry is untouched. -/
+theorem reload_trk_ent (s : Sys F) (now : Nat) (addrs : List Nat) (outs : List (Option Nat)) (i : Nat) :
+    ((step s (.reload now addrs outs)).1.trk.ent i) =
+      if (retained s.links addrs).length ≠ s.links.length ∧ (s.trk.ent i).connId ∈ removedIds s.links addrs
+      then {} else s.trk.ent i := by
+  show ((if ((retained s.links addrs).length != s.links.length) = true
+      then (removedIds s.links addrs).foldl Tracker.removeConnection s.trk else s.trk).ent i) = _
+  by_cases hch : (retained s.links addrs).length = s.links.length
+  · have : ((retained s.links addrs).length != s.links.length) = false := by simp [hch]
+    rw [this]
+    simp [hch]
+  · have : ((retained s.links addrs).length != s.links.length) = true := by simp [hch]
+    rw [this, if_pos rfl, foldl_removeConnection_ent]
+    simp [hch]
+
+/-- A link that is not retained makes the retained list shorter. -/
+theorem removed_changes {ls : List (FLink F)} {addrs : List Nat} {l : FLink F} (hl : l ∈ ls)
+    (hr : addrs.contains l.addr = false) : (retained ls addrs).length ≠ ls.length := by
+  have : (retained ls addrs).length < ls.length := by
+    unfold retained
+    exact List.length_filter_lt_length_iff_exists.2 ⟨l, hl, by rw [hr]; simp⟩
+  omega
+
+theorem ids_stable (s : Sys F) (e : Ev) (hnr : e.isReload = false) (cid : Nat) (h : ∃ l ∈ s.links, l.core.connId = cid) :
     ∃ l ∈ (step s e).1.links, l.core.connId = cid := by
   obtain ⟨l, hl, hc⟩ := h
   obtain ⟨j, hj⟩ := List.getElem?_of_mem hl
-  obtain ⟨b, hb, hab⟩ := (step_id s e).get hj
+  obtain ⟨b, hb, hab⟩ := (step_id s e hnr).get hj
   exact ⟨b, List.mem_of_getElem? hb, (show b.core.connId = l.core.connId from hab).trans hc⟩
 
 theorem trkSubSys_step (s : Sys F) (e : Ev) (h : TrkSubSys s) : TrkSubSys (step s e).1 := by
   intro i
+  cases hnr : e.isReload with
+  | true =>
+    -- a reload purges exactly the entries that name a removed link
+    cases e with
+    | reload now addrs outs =>
+      rw [reload_trk_ent]
+      split
+      · exact Or.inl rfl
+      · rename_i hno
+        rcases h i with h0 | ⟨l, hl, hid⟩
+        · exact Or.inl h0
+        · cases hr : addrs.contains l.addr with
+          | true =>
+            exact Or.inr ⟨l, by rw [reload_links]; exact List.mem_append_left _ (mem_retained.2 ⟨hl, hr⟩), hid⟩
+          | false =>
+            exfalso
+            apply hno
+            refine ⟨removed_changes hl hr, ?_⟩
+            rw [← hid]
+            unfold removedIds
+            exact List.mem_map.2 ⟨l, List.mem_filter.2 ⟨hl, by rw [hr]; rfl⟩, rfl⟩
+    | _ => cases hnr
+  | false =>
   by_cases hc : ∃ now pkt, e = .client now pkt
   · obtain ⟨now, pkt, rfl⟩ := hc
     obtain ⟨h1, h2⟩ := handleSrtPacket_trk s pkt now
@@ -150,7 +217,7 @@ theorem trkSubSys_step (s : Sys F) (e : Ev) (h : TrkSubSys s) : TrkSubSys (step 
         ∃ l ∈ (step s (.client now pkt)).1.links, l.core.connId = (s.trk.ent i).connId := by
       rcases h i with h0 | hm
       · exact Or.inl h0
-      · exact Or.inr (ids_stable s _ _ hm)
+      · exact Or.inr (ids_stable s _ rfl _ hm)
     cases hne : pkt.isEmpty with
     | true =>
       have := h1 (Or.inl hne)
@@ -173,13 +240,13 @@ theorem trkSubSys_step (s : Sys F) (e : Ev) (h : TrkSubSys s) : TrkSubSys (step 
           simp only [Tracker.insert]
           split
           · right
-            exact ids_stable s (.client now pkt) _ ⟨l, List.mem_of_getElem? hl, rfl⟩
+            exact ids_stable s (.client now pkt) rfl _ ⟨l, List.mem_of_getElem? hl, rfl⟩
           · exact hold
   · have hne : ∀ now pkt, e ≠ .client now pkt := fun now pkt he => hc ⟨now, pkt, he⟩
-    rw [step_trk_other s e hne]
+    rw [step_trk_other s e hne hnr]
     rcases h i with h0 | hm
     · exact Or.inl h0
-    · exact Or.inr (ids_stable s e _ hm)
+    · exact Or.inr (ids_stable s e hnr _ hm)
 
 theorem trkSubSys_run (s : Sys F) (evs : List Ev) (h : TrkSubSys s) : TrkSubSys (runEvs s evs) := by
   unfold runEvs
